@@ -64,6 +64,20 @@ def table_event(ch_name, mk, p1000, alphabet, dtype, shape, er, seed, N):
     else:
         ev["npairs"] = numel - 1
         ev["pairs"] = int((evt[:-1] & evt[1:]).sum())
+    # a second call on the same channel object with the same input: the events of the two calls are independent (no pattern reuse)
+    ev["cpairs"], ev["cnpairs"] = -1, 0
+    try:
+        yb = torch.round(ch(x).float().reshape(-1) * 2).long()
+        if ch_name == "bsc":
+            evt_b = yb != x2
+        elif ch_name == "z":
+            evt_b = (x2 == 2) & (yb != x2)
+        else:
+            evt_b = (yb == ev["er2"]) & (x2 != ev["er2"])
+        ev["cnpairs"] = int((x2 == 2).sum()) if ch_name == "z" else (int((x2 != ev["er2"]).sum()) if ch_name == "bec" else numel)
+        ev["cpairs"] = int((evt & evt_b).sum())
+    except Exception:
+        pass
     # joint count of the same position in consecutive batch items (a noise pattern reused across items shows here, not at lag 1)
     ev["ipairs"], ev["inpairs"] = -1, 0
     if len(shape) >= 2 and shape[0] >= 2:
